@@ -6,7 +6,7 @@ from . import codec_common as cc
 def run(ctx):
     cc.r1(ctx)
     th = ctx.tier == "thorough"
-    fams = [("strings", cf.fam_strings),
+    fams = [("strings", cf.fam_strings), ("bits-cross", cf.fam_bits_cross),
             ("composites", lambda r, rnd, t: cf.fam_composites(r, rnd, t, 1500 if th else 260)),
             ("structtag", lambda r, rnd, t: cf.fam_structtag(r, rnd, t, 400 if th else 80)),
             ("elementary-rt", elementary_rt)]
